@@ -1,5 +1,12 @@
 package main
 
+import (
+	"fmt"
+	"path/filepath"
+	"strings"
+	"sync"
+)
+
 // Extra (non-SSA-path) obligation families per property; filled in by later files.
 
 type Extra struct {
@@ -15,5 +22,57 @@ type Extra struct {
 }
 
 func (w *World) extraChecks(id string, opts *RunOpts) *Extra {
-	return &Extra{Coverage: map[string]interface{}{}}
+	ex := &Extra{Coverage: map[string]interface{}{}}
+	w.witnessFindings(id, opts, ex)
+	return ex
+}
+
+// witnessFindings re-runs, end to end on the real generator and the code it
+// emits, the stored witness of every known finding of this property that is
+// identified by a concrete input (rather than by an obligation carve-out).
+func (w *World) witnessFindings(id string, opts *RunOpts, ex *Extra) {
+	type job struct {
+		f   *Finding
+		c   *E2ECase
+		r   *E2EResult
+		err error
+	}
+	var jobs []*job
+	for _, f := range opts.Findings {
+		if f.Kind != "known" || f.Carve != "" || f.Witness == "" || !hasTag(strings.Split(f.Property, ","), id) {
+			continue
+		}
+		c, err := loadE2ECase(filepath.Join(opts.Verif, f.Witness))
+		jobs = append(jobs, &job{f: f, c: c, err: err})
+	}
+	var wg sync.WaitGroup
+	for _, j := range jobs {
+		if j.err != nil {
+			continue
+		}
+		wg.Add(1)
+		go func(j *job) {
+			defer wg.Done()
+			j.r, j.err = runE2E(opts, j.c)
+		}(j)
+	}
+	wg.Wait()
+	var rows []interface{}
+	for _, j := range jobs {
+		if j.err != nil {
+			ex.Lines = append(ex.Lines, fmt.Sprintf("note: witness of known finding %s could not be run: %v", j.f.ID, j.err))
+			continue
+		}
+		viol := j.c.violations(j.r)
+		rows = append(rows, map[string]interface{}{"finding": j.f.ID, "witness": j.f.Witness, "still_fails": len(viol) > 0, "observed": viol, "seconds": j.r.Seconds})
+		if len(viol) > 0 {
+			ex.KnownSeen = append(ex.KnownSeen, fmt.Sprintf("KNOWN-FINDING: property=%s %s [%s; witness %s replayed end to end: %s]", id, j.f.Text, j.f.ID, j.f.Witness, strings.ReplaceAll(trunc(viol[0], 200), "\n", " ")))
+			ex.KnownIDs = append(ex.KnownIDs, j.f.ID)
+		} else {
+			ex.Lines = append(ex.Lines, fmt.Sprintf("note: known finding %s no longer reproduces on its witness %s; entry is stale", j.f.ID, j.f.Witness))
+		}
+	}
+	if len(rows) > 0 {
+		ex.Coverage["known_finding_witness_replays"] = rows
+	}
 }
